@@ -732,7 +732,7 @@ func (x *Exec) havocCall(fr *Frame, cm *calleeCtx, fn *ssa.Function, args []Valu
 // freshResult: an arbitrary result value (not recorded as a harness input).
 func (x *Exec) freshResult(name string, t types.Type) Value {
 	n := len(x.inputs)
-	v := x.freshValue(name, t, 2)
+	v := x.freshValue(name, t, 4)
 	x.inputs = x.inputs[:n]
 	if iv, ok := v.(IfaceV); ok && types.Identical(t, errorType) {
 		iv.Tag = "opaque"
